@@ -2,6 +2,7 @@ package main
 
 import (
 	"bufio"
+	"bytes"
 	"encoding"
 	"encoding/binary"
 	"encoding/hex"
@@ -58,6 +59,7 @@ type unitLine struct {
 	Skipped int            `json:"skipped"`
 	Classes map[string]int `json:"classes"`
 	Remeas  int            `json:"remeasured"`
+	Trivial int            `json:"trivial"`                // cases whose input equals the valid one (the replacement is what was there already)
 	Generic int            `json:"generic_json_inflation"` // over the bound, but allocated by encoding/json itself (element size x element count)
 }
 
@@ -331,6 +333,9 @@ func (w *worker) decodeAll() {
 					continue
 				}
 				ci, dc := ci, dc
+				if bytes.Equal(dc.B, sh.Bytes) {
+					ul.Trivial++
+				}
 				items = append(items, item{idx: ci, key: key, n: len(dc.B), class: dc.Class,
 					run: func() error { _, _, err := t.Decode(dc.B); return err },
 					fail: func(kind string, o outcome, alloc uint64) {
